@@ -180,12 +180,12 @@ def check_c13(ctx):
         c["id"] = 1000000 + i + 1
 
     # 2. selection
-    d_main, d_fg = _select(ctx, main, 10 ** 9, ctx.pick(4200, 10 ** 9), ctx.pick(8, 300), rnd)
-    d_num, _ = _select(ctx, num, 10 ** 9, ctx.pick(900, 10 ** 9), 0, rnd)
+    d_main, d_fg = _select(ctx, main, 10 ** 9, ctx.pick(2400, 10 ** 9), ctx.pick(8, 300), rnd)
+    d_num, _ = _select(ctx, num, 10 ** 9, ctx.pick(450, 10 ** 9), 0, rnd)
     inval = [c for c in d_main if not c["valid"]]
     val = [c for c in d_main if c["valid"] and any(c["changes"])]
-    n_hook = ctx.pick(240, 3000)
-    h_cases = inval[:n_hook] + val[:n_hook] + [c for c in d_num if len(c["stream"]) == 2][:ctx.pick(60, 600)]
+    n_hook = ctx.pick(180, 3000)
+    h_cases = inval[:n_hook] + val[:n_hook] + [c for c in d_num if len(c["stream"]) == 2][:ctx.pick(40, 600)]
 
     # 3. the real code
     binary = build.result()
